@@ -1,6 +1,7 @@
 package stablecomp
 
 import (
+	"strings"
 	"bytes"
 	"fmt"
 	"math"
@@ -321,9 +322,34 @@ func TestC04(t *testing.T) {
 			return
 		}
 		checkViews(r, id, src, m.Names(), true)
+		// near-valid variants: whatever the compiler still accepts must be a file the runtime accepts too, with equal views
+		for k := 0; k < 3; k++ {
+			op := &gen.Operators[rng.Intn(len(gen.Operators))]
+			if mu, ok, err := gen.Mutate(rng, m, op); err == nil && ok {
+				checkViews(r, id+"/m/"+op.Name, mu.Sources, mu.Names, true)
+			}
+		}
 		if i == 0 {
 			r.Sample("generated-model", src)
 		}
+	})
+	// hand-written near-valid shapes around rules the runtime enforces itself (closed enums under implicit presence,
+	// proto3 files using proto2 enums, packed on non-packable fields, ...): accepted or not is C01's business; if
+	// accepted, the runtime must accept the result as well
+	shapes := c04Shapes()
+	r.Par(len(shapes), func(i int) {
+		id := fmt.Sprintf("shape/%d", i)
+		if !r.Want(id) {
+			return
+		}
+		var names []string
+		for n := range shapes[i] {
+			if n != "e2.proto" {
+				names = append(names, n)
+			}
+		}
+		checkViews(r, id, shapes[i], names, true)
+		r.Class("near-valid-shape")
 	})
 	w, err := loadR2World()
 	if err != nil {
@@ -337,4 +363,29 @@ func TestC04(t *testing.T) {
 		}
 		checkViews(r, id, w.closure(e.Name), []string{e.Name}, false)
 	})
+}
+
+func c04Shapes() []map[string]string {
+	e2 := "syntax = \"proto2\";\npackage e2;\nenum Closed { C_ONE = 1; C_TWO = 2; }\nenum ClosedZero { Z = 0; O = 1; }\n"
+	var out []map[string]string
+	uses := []string{
+		"%s f = 1;", "repeated %s f = 1;", "map<string, %s> f = 1;", "map<int32, %s> f = 1;", "oneof o { %s f = 1; }", "optional %s f = 1;",
+	}
+	for _, en := range []string{"e2.Closed", "e2.ClosedZero"} {
+		for _, u := range uses {
+			body := fmt.Sprintf(u, en)
+			out = append(out, map[string]string{"e2.proto": e2, "a.proto": "syntax = \"proto3\";\npackage a;\nimport \"e2.proto\";\nmessage M { " + body + " }\n"})
+			out = append(out, map[string]string{"e2.proto": e2, "a.proto": "edition = \"2023\";\npackage a;\nimport \"e2.proto\";\noption features.field_presence = IMPLICIT;\nmessage M { " + strings.Replace(body, "optional ", "", 1) + " }\n"})
+		}
+	}
+	for _, u := range uses {
+		body := fmt.Sprintf(u, "E")
+		for _, enumFeat := range []string{"option features.enum_type = CLOSED;", ""} {
+			for _, fileFeat := range []string{"option features.field_presence = IMPLICIT;\n", "option features.enum_type = CLOSED;\n", ""} {
+				out = append(out, map[string]string{"a.proto": "edition = \"2023\";\npackage a;\n" + fileFeat + "enum E { " + enumFeat + " E_ZERO = 0; E_ONE = 1; }\nmessage M { " + strings.Replace(body, "optional ", "", 1) + " }\n"})
+				out = append(out, map[string]string{"a.proto": "edition = \"2023\";\npackage a;\n" + fileFeat + "enum E { " + enumFeat + " E_ZERO = 0; E_ONE = 1; }\nmessage M { " + strings.Replace(strings.Replace(body, "optional ", "", 1), " = 1;", " = 1 [features.field_presence = IMPLICIT];", 1) + " }\n"})
+			}
+		}
+	}
+	return out
 }
